@@ -25,4 +25,33 @@ def cmdFilter (ws : List String) : String :=
         if kept.isEmpty then "-" else ",".intercalate kept
   | _ => "bad-op"
 
+def parseHubStep (s : String) : Option (List (HubStep Nat) ⊕ Unit) :=
+  if s == "A" then some (.inr ()) else
+  let n := (s.drop 1).toString.toNat?
+  match s.front, n with
+  | 'w', some n => some (.inl [.watch n])
+  | 'r', some n => some (.inl [.remove n])
+  | 'p', some n => some (.inl [.publish n])
+  | 'a', some n => some (.inl [.apply n])
+  | _, _ => none
+
+/-- every registered watcher drains its queue -/
+def hubDrain (h : Hub Nat) : Hub Nat :=
+  { h with ws := h.ws.map (fun e => (e.1, (List.range e.2.queue.length).foldl (fun w _ => applyOne w) e.2)) }
+
+/-- `hub <cap> <w<id>|r<id>|p<x>|a<id>|A …>` (A = every watcher applies all it has pending) →
+    `id=applied` for every registered watcher, in registration order -/
+def cmdHub (ws : List String) : String :=
+  match ws with
+  | cap :: steps =>
+    match cap.toNat?, steps.mapM parseHubStep with
+    | some cap, some ss =>
+      let h := ss.foldl (fun (h : Hub Nat) s => match s with
+        | .inl l => hubRun cap h l
+        | .inr _ => hubDrain h) ⟨none, []⟩
+      if h.ws.isEmpty then "-" else
+      " ".intercalate (h.ws.map (fun e => s!"{e.1}=" ++ (match e.2.applied with | some x => toString x | none => "-")))
+    | _, _ => "bad-args"
+  | _ => "bad-op"
+
 end Rpcx.Driver
